@@ -8,6 +8,9 @@ import ZV.Proofs.C18Seq
 import ZV.Proofs.C18Sort
 import ZV.Proofs.C18Dom
 import ZV.Proofs.C18Main
+import ZV.Model.C18Time
+import ZV.Proofs.TimeInv
+import ZV.Proofs.C18Time
 /-!
   C18 — ASN.1 marshalling round-trips and is idempotent.
 
@@ -24,7 +27,14 @@ import ZV.Proofs.C18Main
   `marshal_idempotent`, `unmarshal_marshal_all`: corollaries.  Content-level theorems: `int64_content_roundtrip`,
   `bigint_content_roundtrip`, `oid_content_roundtrip`, `bitstring_content_roundtrip`, `set_sort_*`.
 
-  Not covered by theorems (correspondence T2 / oracle T3 only): time.Time, interface{}, RawContent (outside the model);
+  time.Time (section "time.Time" at the end; models `ZV.Model.Time`, `ZV.Model.C18Time`): `civil_unix_roundtrip` /
+  `unix_civil_roundtrip` (calendar ↔ Unix seconds, every year), `utctime_roundtrip`, `gentime_roundtrip`
+  (`parseUTCTime ∘ appendUTCTime`, `parseGeneralizedTime ∘ appendGeneralizedTime`, both parsing modes),
+  `time_choice`, `time_year_guard`, `time_body_roundtrip` (the UTCTime / GeneralizedTime choice of `makeField` /
+  `makeBody` and the decoder's arm agree).  time.Time is NOT a leaf of the deep embedding: time fields inside
+  structs / slices are covered by T3 only; a bare time.Time with parameters is tied by T2 (`c18 tm/tu`).
+
+  Not covered by theorems (correspondence T2 / oracle T3 only): interface{}, RawContent (outside the model);
   Go `int` overflow of lengths ≥ 2^31.  See tools/props/C18.json.
 -/
 namespace ZV.C18
@@ -188,7 +198,10 @@ example : oidOK [2, 999, 3, 2147483647] = true ∧ bitsOK [0xff, 0x80] 9 = true 
 -- FULL (lengths): encodings of 2^31 bytes or more (Go `int` overflow is not modelled; hypothesis `hl`).
 -- FULL (permissive mode): the same statements for `unmarshal true` follow from `ZV.C20.perm_extends` (not imported here to keep
 --   the two packages independent).
--- FULL (time.Time, interface{}, RawContent, int8/int16): outside the Lean model; time.Time is covered by the T3-only stream.
+-- FULL (time.Time as a struct field / slice element): the deep embedding `Schema` has no time leaf, so `unmarshal_marshal_equiv` does not
+--   quantify over schemas containing time.Time; proved instead: the content level (`utctime_roundtrip`, `gentime_roundtrip`,
+--   `time_body_roundtrip`, below), tied by T2 for a bare time.Time with any parameters (`c18 tm/tu`), T3 for nested time fields.
+-- FULL (interface{}, RawContent, int8/int16): outside the Lean model.
 
 /-- why `absentOK` wants nil under omitempty: an OPTIONAL struct holding only an empty NON-NIL `omitempty` slice is written
     (`a0 00`), comes back as the zero struct, and is then left out: `Marshal (Unmarshal (Marshal v)) ≠ Marshal v`.
@@ -204,5 +217,183 @@ theorem omitempty_nonnil_not_idempotent :
     decide
   · simp [marshal, makeField, makeFields, omitted, wrap, isSliceKind, lenZero, zeroVal]
     decide
+
+/-! ## time.Time -/
+section TimeValues
+open ZV.Time
+
+/-- **calendar → Unix seconds → calendar**: `time.Date(y, m, d, h, mi, s, 0, zone)` broken down again in the same
+    zone gives the same fields — for EVERY year (not only 0..9999), every month 1..12, every day of that month
+    (29 February exactly in leap years), every clock reading, every zone offset. -/
+theorem civil_unix_roundtrip (c : Civil) (hv : c.valid = true) : ofUnix (toUnix c) c.off = c :=
+  ofUnix_toUnix c hv
+
+example : ({ year := 2024, month := 2, day := 29, hour := 23, min := 59, sec := 59, off := -3600 } : Civil).valid = true ∧
+    ({ year := 2023, month := 2, day := 29, hour := 0, min := 0, sec := 0, off := 0 } : Civil).valid = false ∧
+    ({ year := 1900, month := 2, day := 29, hour := 0, min := 0, sec := 0, off := 0 } : Civil).valid = false ∧
+    ({ year := 0, month := 2, day := 29, hour := 0, min := 0, sec := 0, off := 0 } : Civil).valid = true := by decide
+
+/-- **Unix seconds → calendar → Unix seconds**: every instant in every zone breaks down into normalised fields
+    that `time.Date` maps back to the instant. -/
+theorem unix_civil_roundtrip (u o : Int) : (ofUnix u o).valid = true ∧ toUnix (ofUnix u o) = u :=
+  ⟨ofUnix_valid u o, toUnix_ofUnix u o⟩
+
+/-- **GeneralizedTime content round trip** (strict and permissive): for every time whose year (in its zone) is
+    0..9999 and whose zone offset is below 25 hours, `appendGeneralizedTime` succeeds and `parseGeneralizedTime`
+    of what it wrote — `time.Parse` with "20060102150405Z0700" and the re-serialisation test — returns `readBack t`:
+    whole seconds, zone offset truncated to whole minutes, local clock reading kept. -/
+theorem gentime_roundtrip (perm : Bool) (t : GoTime) (hy0 : 0 ≤ t.year) (hy1 : t.year ≤ 9999) (h1 : -90000 < t.off)
+    (h2 : t.off < 90000) :
+    ∃ bs, EA.appendGeneralizedTime t = .ok bs ∧ EA.parseGeneralizedTime perm bs = .ok (readBack t) :=
+  ⟨genText t, appendGeneralizedTime_eq t hy0 hy1, parseGeneralizedTime_genText perm t hy0 hy1 h1 h2⟩
+
+example : ({ unix := -62167219200, off := 0 } : GoTime).year = 0 ∧ ({ unix := 253402300799, off := 0 } : GoTime).year = 9999 ∧
+    ({ unix := 253402300799, off := 86340 } : GoTime).year = 10000 ∧
+    EA.appendGeneralizedTime { unix := -62167219200, off := 0 } =
+      .ok [0x30, 0x30, 0x30, 0x30, 0x30, 0x31, 0x30, 0x31, 0x30, 0x30, 0x30, 0x30, 0x30, 0x30, 0x5a] := by decide +kernel
+
+/-- **UTCTime content round trip** (strict and permissive): years 1950..2049, including the 19YY / 20YY century
+    choice of `time.Parse` (YY ≥ 69 is 19YY) corrected by `AddDate(-100, 0, 0)` for 50..68, and the first attempt
+    with the layout without seconds failing on the form with seconds. -/
+theorem utctime_roundtrip (perm : Bool) (t : GoTime) (hy0 : 1950 ≤ t.year) (hy1 : t.year < 2050) (h1 : -90000 < t.off)
+    (h2 : t.off < 90000) :
+    ∃ bs, EA.appendUTCTime t = .ok bs ∧ EA.parseUTCTime perm bs = .ok (readBack t) :=
+  ⟨utcText t, appendUTCTime_eq t hy0 hy1, parseUTCTime_utcText perm t hy0 hy1 h1 h2⟩
+
+/-- the zone bound of `gentime_roundtrip` is exact (zone offsets below 100 hours): for a zone of 25 hours or more
+    `appendGeneralizedTime` still writes (hour field 25..99), and `parseGeneralizedTime` rejects it in BOTH modes
+    (`time.Parse` itself refuses a zone hour above 24). -/
+theorem gentime_roundtrip_iff (perm : Bool) (t : GoTime) (hy0 : 0 ≤ t.year) (hy1 : t.year ≤ 9999)
+    (h1 : -360000 < t.off) (h2 : t.off < 360000) :
+    (∃ bs, EA.appendGeneralizedTime t = .ok bs ∧ EA.parseGeneralizedTime perm bs = .ok (readBack t)) ↔
+      (-90000 < t.off ∧ t.off < 90000) := by
+  constructor
+  · rintro ⟨bs, hb, hp⟩
+    by_contra hn
+    rw [appendGeneralizedTime_eq t hy0 hy1] at hb
+    simp only [Res.ok.injEq] at hb
+    subst hb
+    rw [parseGeneralizedTime_25h perm t hy0 hy1 (by omega) h1 h2] at hp
+    simp at hp
+  · intro ⟨a, b⟩
+    exact gentime_roundtrip perm t hy0 hy1 a b
+
+example : EA.appendGeneralizedTime { unix := 0, off := 90000 } =
+      .ok [0x31, 0x39, 0x37, 0x30, 0x30, 0x31, 0x30, 0x32, 0x30, 0x31, 0x30, 0x30, 0x30, 0x30, 0x2b, 0x32, 0x35, 0x30, 0x30] ∧
+    EA.parseGeneralizedTime true
+      [0x31, 0x39, 0x37, 0x30, 0x30, 0x31, 0x30, 0x32, 0x30, 0x31, 0x30, 0x30, 0x30, 0x30, 0x2b, 0x32, 0x35, 0x30, 0x30] = .err := by
+  decide +kernel
+
+/-- for a zone offset of whole minutes (UTC included) `readBack` is the same instant in the same zone -/
+theorem readBack_same_instant (t : GoTime) (h : Int.tmod t.off 60 = 0) :
+    readBack t = { unix := t.unix, off := t.off, nsec := 0 } := readBack_whole t h
+
+example : (0 : Int) ≤ ({ unix := 951868799, off := 19800, nsec := 5 } : GoTime).year ∧
+    ({ unix := 951868799, off := 19800, nsec := 5 } : GoTime).year = 2000 ∧
+    Int.tmod (19800 : Int) 60 = 0 ∧
+    EA.appendUTCTime { unix := 951868799, off := 19800, nsec := 5 } =
+      .ok [0x30, 0x30, 0x30, 0x33, 0x30, 0x31, 0x30, 0x35, 0x32, 0x39, 0x35, 0x39, 0x2b, 0x30, 0x35, 0x33, 0x30] := by
+  decide +kernel
+
+/-- a zone offset with seconds is NOT preserved (the text forms have no zone seconds): `time.Time` at the Unix
+    epoch in a zone 30 s east of UTC is written as `700101000030Z` and read back 30 seconds later, in UTC.
+    (Outside the documented domain of the property; harness: `timeInDomain`.) -/
+example : EA.appendUTCTime { unix := 0, off := 30 } =
+      .ok [0x37, 0x30, 0x30, 0x31, 0x30, 0x31, 0x30, 0x30, 0x30, 0x30, 0x33, 0x30, 0x5a] ∧
+    EA.parseUTCTime false [0x37, 0x30, 0x30, 0x31, 0x30, 0x31, 0x30, 0x30, 0x30, 0x30, 0x33, 0x30, 0x5a] =
+      .ok { unix := 30, off := 0 } ∧ readBack { unix := 0, off := 30 } = { unix := 30, off := 0 } := by decide +kernel
+
+/-- **the UTCTime / GeneralizedTime choice** of `makeField` (tag) and `makeBody` (content): UTCTime exactly when
+    the field is not marked `generalized` and the year (in the zone of the value) is 1950..2049; the content is
+    written by the encoder that matches the tag, and the UTCTime encoder cannot fail there. -/
+theorem time_choice (timeType : Nat) (t : GoTime) :
+    (EA.timeTag timeType t = 23 ↔ (timeType ≠ 24 ∧ 1950 ≤ t.year ∧ t.year < 2050)) ∧
+    (EA.timeTag timeType t = 23 ∨ EA.timeTag timeType t = 24) ∧
+    (EA.timeTag timeType t = 23 → EA.makeTimeBody timeType t = EA.appendUTCTime t ∧ (EA.appendUTCTime t).isOk = true) ∧
+    (EA.timeTag timeType t = 24 → EA.makeTimeBody timeType t = EA.appendGeneralizedTime t) := by
+  by_cases hg : timeType = 24
+  · subst hg
+    simp [EA.timeTag, EA.useGeneralized, EA.makeTimeBody]
+  · by_cases hr : 1950 ≤ t.year ∧ t.year < 2050
+    · have ho : EA.outsideUTCRange t = false := by simp [EA.outsideUTCRange]; omega
+      have hb : (timeType == 24) = false := by simpa using hg
+      simp only [EA.timeTag, EA.useGeneralized, EA.makeTimeBody, hb, ho, Bool.or_self, Bool.false_eq_true, if_false]
+      refine ⟨by simp [hg, hr], by simp, fun _ => ⟨trivial, ?_⟩, by simp⟩
+      rw [appendUTCTime_eq t hr.1 hr.2]; rfl
+    · have ho : EA.outsideUTCRange t = true := by simp [EA.outsideUTCRange]; omega
+      simp only [EA.timeTag, EA.useGeneralized, EA.makeTimeBody, ho, Bool.or_true, if_true]
+      refine ⟨by simp [hr], by simp, by simp, fun _ => trivial⟩
+
+/-- Marshal refuses exactly the times whose year is outside 0..9999 -/
+theorem time_year_guard (timeType : Nat) (t : GoTime) :
+    EA.makeTimeBody timeType t = .err ↔ (t.year < 0 ∨ t.year > 9999) := by
+  obtain ⟨h23, hor, hu, hg⟩ := time_choice timeType t
+  rcases hor with h | h
+  · have := (hu h)
+    have hr := (h23.1 h).2
+    rw [this.1, appendUTCTime_eq t hr.1 hr.2]
+    constructor
+    · intro e; simp at e
+    · intro e; omega
+  · rw [hg h]
+    constructor
+    · intro e
+      by_cases hy : t.year < 0 ∨ t.year > 9999
+      · exact hy
+      · rw [appendGeneralizedTime_eq t (by omega) (by omega)] at e; simp at e
+    · intro e; exact appendGeneralizedTime_err t e
+
+/-- **content round trip through the choice**: whatever tag `makeField` chose, the decoder's `*time.Time` arm for
+    that tag reads the content `makeBody` wrote back as `readBack t`. -/
+theorem time_body_roundtrip (perm : Bool) (timeType : Nat) (t : GoTime) (hy0 : 0 ≤ t.year) (hy1 : t.year ≤ 9999)
+    (h1 : -90000 < t.off) (h2 : t.off < 90000) :
+    ∃ body, EA.makeTimeBody timeType t = .ok body ∧
+      EA.parseTimeBody perm (EA.timeTag timeType t) body = .ok (readBack t) := by
+  obtain ⟨h23, hor, hu, hg⟩ := time_choice timeType t
+  rcases hor with h | h
+  · have hr := (h23.1 h).2
+    obtain ⟨bs, e1, e2⟩ := utctime_roundtrip perm t hr.1 hr.2 h1 h2
+    exact ⟨bs, by rw [(hu h).1]; exact e1, by simp only [EA.parseTimeBody, h, if_true]; exact e2⟩
+  · obtain ⟨bs, e1, e2⟩ := gentime_roundtrip perm t hy0 hy1 h1 h2
+    exact ⟨bs, by rw [hg h]; exact e1, by simp only [EA.parseTimeBody, h]; exact e2⟩
+
+/-- **`Unmarshal ∘ Marshal` for a bare `time.Time` with parameters** (`MarshalWithParams(t, params)`; any
+    combination of EXPLICIT / IMPLICIT / APPLICATION / PRIVATE tag, tag number < 2^31, `utc`, `generalized`,
+    `optional`), both parsing modes, any trailing bytes: the decoder returns `readBack t` and leaves `rest`.
+    `fieldOK`: no string kind, no `set`, the value is not left out, and under an IMPLICIT tag the decoder's
+    parser choice (the `utc` / `generalized` parameter, else UTCTime) is the encoder's. -/
+theorem time_field_roundtrip (perm : Bool) (p : Params) (t : GoTime) (enc rest : Bytes) (hg : Good p)
+    (hok : TimeField.fieldOK p t = true) (hy0 : 0 ≤ t.year) (hy1 : t.year ≤ 9999) (h1 : -90000 < t.off)
+    (h2 : t.off < 90000) (henc : TimeField.makeTimeField p t = .ok enc) (hlen : enc.length < 2147483648) :
+    TimeField.parseTimeField perm p (enc ++ rest) = .ok (readBack t, rest) := by
+  obtain ⟨body, hb, hp⟩ := time_body_roundtrip perm p.timeType t hy0 hy1 h1 h2
+  have hok' := hok
+  simp only [TimeField.fieldOK, Bool.and_eq_true, decide_eq_true_eq, Bool.not_eq_true'] at hok'
+  obtain ⟨⟨⟨hstr, hset⟩, hom⟩, _⟩ := hok'
+  simp only [TimeField.makeTimeField, hom, Bool.false_eq_true, if_false, hstr, ne_eq, not_true_eq_false, hset, hb,
+    Res.ok.injEq] at henc
+  subst henc
+  rw [TimeField.parseTimeField_wrap perm p t body rest hg hok hlen, hp]
+
+example : TimeField.fieldOK { tag := some 0, timeType := 24 } { unix := 2524608000, off := 0 } = true ∧
+    TimeField.makeTimeField { tag := some 0, timeType := 24 } { unix := 2524608000, off := 0 } =
+      .ok [0x80, 0x0f, 0x32, 0x30, 0x35, 0x30, 0x30, 0x31, 0x30, 0x31, 0x30, 0x30, 0x30, 0x30, 0x30, 0x30, 0x5a] := by
+  decide +kernel
+
+/-- the IMPLICIT-tag clause of `fieldOK` is needed: under `tag:0` without `generalized` a year outside 1950..2049
+    is written as GeneralizedTime content, which the decoder (no universal tag on the wire) reads as UTCTime and
+    rejects.  (With `generalized` the decoder follows the parameter — the fix for D26.) -/
+example : TimeField.fieldOK { tag := some 0 } { unix := 2524608000, off := 0 } = false ∧
+    (match TimeField.makeTimeField { tag := some 0 } { unix := 2524608000, off := 0 } with
+     | .ok enc => TimeField.parseTimeField false { tag := some 0 } enc
+     | _ => .ok (TimeField.zeroTime, [])) = .err := by decide +kernel
+
+/-- an OPTIONAL `time.Time{}` is left out, and nothing decodes to `time.Time{}` again -/
+theorem time_field_omitted (perm : Bool) (p : Params) (ho : p.optional = true) (hd : p.defaultValue = none) :
+    TimeField.makeTimeField p TimeField.zeroTime = .ok [] ∧
+    TimeField.parseTimeField perm p [] = .ok (TimeField.zeroTime, []) := by
+  simp [TimeField.makeTimeField, TimeField.omittedTime, TimeField.parseTimeField, TimeField.dfltTime, ho, hd]
+
+end TimeValues
 
 end ZV.C18
